@@ -6,5 +6,6 @@ CONSTANTS
   AcqBarrier = TRUE
   NotLeaderPanics = FALSE
   ApplyRefuses = TRUE
+  QueueGroup = TRUE
 POSTCONDITION Done
 CHECK_DEADLOCK FALSE
